@@ -299,6 +299,8 @@ def run_op(b: Built, i: int, op: dict, source: str = 'inline') -> None:
             lf.defining_origin.file_id.value = op['value']
     elif kind == 'set_sul':
         setattr(b.df.storage_unit_label, op['field'], op['value'])
+    elif kind == 'noop':
+        pass
     elif kind == 'rename_set':
         # the set an object lives in is given another name after creation (public attribute of the set)
         b.handles[op['target']].parent.set_name = op['value']
@@ -328,7 +330,8 @@ def make_write_data(spec: dict, b: Built, scratch: str):
     items = []
     for j in order:
         i, op = chans[j]
-        key = op.get('dataset_name') or op['name']
+        # the name the library itself looks the channel's data up by (NAME, NAME__1, ... for repeated channel names)
+        key = op.get('dataset_name') or getattr(b.handles.get(i), 'dataset_name', None) or op['name']
         items.append((key, b.arrays[i]))
     n0 = items[0][1].shape[0] if items else 1
     for e in range(extra):
